@@ -44,10 +44,13 @@ NOTSET = _NotSet()
 
 
 class SymInt:
-    __slots__ = ("e",)
+    """w: proven bit-width bound (value known to lie in [0, 2^w)) or None.  Only set where the range is
+    enforced by construction (cells of byte strings, codec table outputs)."""
+    __slots__ = ("e", "w")
 
-    def __init__(self, e):
+    def __init__(self, e, w=None):
         self.e = e
+        self.w = w
 
     def __repr__(self):
         return f"SymInt({self.e})"
@@ -309,10 +312,30 @@ def zb(v):
     raise Unsupported(f"not a boolean value: {type(v).__name__}")
 
 
-def mk_int(e):
+def mk_int(e, w=None):
     if z3.is_int_value(e):
         return e.as_long()
-    return SymInt(e)
+    return SymInt(e, w)
+
+
+def width_of(v):
+    """bit-width bound of an int-like value, or None."""
+    if isinstance(v, bool):
+        return 1
+    if isinstance(v, int):
+        return v.bit_length() if v >= 0 else None
+    if isinstance(v, SymInt):
+        return v.w
+    if isinstance(v, SymBool):
+        return 1
+    return None
+
+
+def as_byte(v):
+    """Tag an int-like value that has just passed the 0..255 check."""
+    if isinstance(v, SymInt) and (v.w is None or v.w > 8):
+        return SymInt(v.e, 8)
+    return v
 
 
 def mk_bool(e):
